@@ -55,6 +55,30 @@ func ruleCheckPackGuards(c *eng.Ctx) {
 
 func init() {
 	register(&Property{
+		ID: "C11",
+		Explanation: "Decides the ordering that makes every crash prefix of a backup consistent: (uploader-flush) WithBlobUploader returns nil only after the callback and Repository.flush succeeded, flush runs only after the callback succeeded, and the result is Wait() of the errgroup the worker runs on; (flush-order) flush waits for all asynchronous blob savers before flushing the packers, writes the index only after flushPackUploader succeeded, and flushPackUploader succeeds only after both packer managers flushed and packerWg.Wait() returned; (pack-before-index) in savePacker MasterIndex.StorePack is reachable only through the success edge of be.Save, be.Save only after Packer.Finalize succeeded, StorePack has no other caller with fresh packs, upload workers propagate savePacker errors; (snapshot-after-upload) every data.SaveSnapshot site of the program lies outside any WithBlobUploader callback and, where an upload session precedes it (in the function or its callers), behind that session's success edge; snapshot files are written through no other path. Hence no crash prefix contains a snapshot whose packs or index entries were not stored first. Not decided: that a later backup/prune on the interrupted state succeeds (C09/C15).",
+		Assumptions: append([]string{"errgroup.Group.Wait returns the first non-nil error of the functions started with Go", "backend.Save returns nil only after the file is durably stored (C36 for the local backend)"}, commonAssumptions...),
+		Technique:   "static analysis: CFG edge-cut ordering + enumeration of all snapshot-save sites with caller-chain propagation (go/ssa)",
+		AllConfigs:  true,
+		Run: func(c *eng.Ctx) {
+			ruleUploaderFlush(c)
+			ruleFlushOrder(c)
+			rulePackBeforeIndex(c)
+			ruleSnapshotAfterUpload(c)
+		},
+		Controls: []Control{
+			{Name: "index-before-pack-upload", File: "internal/repository/repository.go",
+				Old: "	if err := r.flushPackUploader(ctx); err != nil {\n		return err\n	}\n\n	return r.idx.Flush(ctx, &internalRepository{r})", New: "	if err := r.idx.Flush(ctx, &internalRepository{r}); err != nil {\n		return err\n	}\n\n	return r.flushPackUploader(ctx)", Rule: "flush-order"},
+			{Name: "storepack-despite-save-error", File: "internal/repository/packer_manager.go",
+				Old: "		debug.Log(\"Save(%v) error: %v\", h, err)\n		return err\n", New: "		debug.Log(\"Save(%v) error: %v\", h, err)\n", Rule: "pack-before-index"},
+			{Name: "snapshot-inside-upload-callback", File: "cmd/restic/cmd_recover.go",
+				Old: "		return nil\n	})\n	if err != nil {\n		return err\n	}\n\n	return createSnapshot(ctx, printer, \"/recover\", hostname, []string{\"recovered\"}, repo, &treeID)",
+				New: "		return createSnapshot(ctx, printer, \"/recover\", hostname, []string{\"recovered\"}, repo, &treeID)\n	})\n	if err != nil {\n		return err\n	}\n\n	return nil", Rule: "snapshot-after-upload"},
+			{Name: "ignore-flush-error", File: "internal/repository/repository.go",
+				Old: "		if err := r.flush(ctx); err != nil {\n			return fmt.Errorf(\"error flushing repository: %w\", err)\n		}\n		return nil", New: "		_ = r.flush(ctx)\n		return nil", Rule: "uploader-flush"},
+		},
+	})
+	register(&Property{
 		ID: "C03",
 		Explanation: "Decides necessary conditions of corruption reporting: (mac-before-decrypt) Key.Open decrypts and returns nil only after poly1305Verify succeeded; (open-error-used) at every Key.Open call site the error is examined and no nil-error return is reachable from a failed Open; (nil-only-after-hash) blob and file load paths return success only after the hash comparison; (accumulator) errors appended to the local error lists of checkPackInner, checker.checkTree, loadSnapshotTreeIDs and Checker.LoadIndex reach the result or a len()!=0 test before any success return; (checkpack-guards) checkPackInner succeeds only after download, sha256-of-stream == pack ID and header decode; (check-exit) in runCheck every nil-error return lies on the false edge of one errors-found flag, every error received from the three checker channels sets that flag on every path (sole exception: orphaned packs) and a non-empty LoadIndex error list forces failure. Not decided: that every byte flip is detected (strength of Poly1305/SHA-256, zstd framing).",
 		Assumptions: commonAssumptions,
